@@ -17,7 +17,7 @@ import copy
 import re as _re
 
 from .. import gen_source, reflines
-from ..core import Stats, Violation, stream, digest_of
+from ..core import Stats, Violation, stream, digest_of, SimWatchdog
 from ..driver import RunResult
 from . import c10 as _c10
 
@@ -100,11 +100,48 @@ def parse_text(text, start, n_chunks=1, rng=None, interlope=None, interference=N
     else:
         source = text
     try:
-        return parse_script(source, start), None, None
+        return _guarded(parse_script, source, start), None, None
     except BareScriptParserError as exc:
         return None, exc, None
+    except SimWatchdog:
+        _HANGS[0] += 1
+        return None, None, ParserDoesNotReturn(f'no result after {_limit():.0f} s')
     except Exception as exc:  # pylint: disable=broad-except
         return None, None, exc
+
+
+class ParserDoesNotReturn(Exception):
+    """A single parse_script call that is still running after PARSE_LIMIT_S seconds (texts here are a few hundred
+    characters per line at most; a parse takes milliseconds)."""
+
+
+PARSE_LIMIT_S = 20.0
+_HANGS = [0]
+
+
+def _limit():
+    # once this process has seen three parses that did not return, later ones are given up on sooner
+    return PARSE_LIMIT_S if _HANGS[0] < 3 else 3.0
+
+
+def _on_alarm(signum, frame):
+    raise SimWatchdog('parse_script does not return')
+
+
+def _guarded(fn, *args):
+    """Run fn under an interval timer (main thread only): the regular-expression engine polls for signals, so a
+    pattern that backtracks without end is interrupted — the thread-level hang guard cannot reach into C code."""
+    import signal
+    import threading
+    if threading.current_thread() is not threading.main_thread():
+        return fn(*args)
+    old = signal.signal(signal.SIGALRM, _on_alarm)
+    signal.setitimer(signal.ITIMER_REAL, _limit())
+    try:
+        return fn(*args)
+    finally:
+        signal.setitimer(signal.ITIMER_REAL, 0)
+        signal.signal(signal.SIGALRM, old)
 
 
 def stmt_kind(text):
